@@ -15,24 +15,48 @@ import (
 	"errors"
 	"fmt"
 	"io"
+	"net"
 	"net/netip"
+	"os"
 	"sort"
 	"strconv"
 	"strings"
+	"syscall"
 	"testing"
 	"time"
 
 	"github.com/daeuniverse/dae/common/consts"
 	ob "github.com/daeuniverse/dae/component/outbound"
 	"github.com/daeuniverse/dae/component/outbound/dialer"
+	"github.com/daeuniverse/dae/config"
+	"github.com/daeuniverse/dae/pkg/config_parser"
 	"github.com/daeuniverse/outbound/netproxy"
 	"github.com/sirupsen/logrus"
 )
 
-type c15cNoop struct{}
+// the members' transport: what a dial does is scripted per attempt by the harness
+type c15cStub struct{ w *c15cWorld }
 
-func (c15cNoop) DialContext(context.Context, string, string) (netproxy.Conn, error) {
-	return nil, errors.New("not implemented")
+func (s c15cStub) DialContext(context.Context, string, string) (netproxy.Conn, error) {
+	w := s.w
+	o := byte('e')
+	if w != nil && len(w.dialScript) > 0 {
+		o = w.dialScript[0]
+		w.dialScript = w.dialScript[1:]
+	}
+	if w != nil {
+		w.dialed++
+	}
+	switch o {
+	case 'o':
+		a, b := net.Pipe()
+		_ = b.Close()
+		return a, nil
+	case 'u':
+		return nil, &net.OpError{Op: "dial", Net: "tcp", Err: os.NewSyscallError("connect", syscall.ENETUNREACH)}
+	default:
+		return nil, errors.New("verif: connection refused by script")
+	}
 }
 
 type c15cWorld struct {
@@ -46,16 +70,42 @@ type c15cWorld struct {
 	pens    [][6]int64
 	policy  consts.DialerSelectionPolicy
 	lastSel int
-	st      *VStream
-	stats   *VStats
+	// routeDial: scripted dial outcomes ('o' ok, 'u' network unreachable, 'e' other error), dial counter
+	dialScript []byte
+	dialed     int
+	matcher    *RoutingMatcher
+	st         *VStream
+	stats      *VStats
 }
 
-func c15cNewDialer(opt *dialer.GlobalOption, name string) *dialer.Dialer {
+func c15cNewDialer(w *c15cWorld, opt *dialer.GlobalOption, name string) *dialer.Dialer {
 	ctx, cancel := context.WithCancel(context.Background())
 	cancel()
 	p := &dialer.Property{}
 	p.Name = name
-	return dialer.NewDialerContext(ctx, c15cNoop{}, opt, dialer.InstanceOption{DisableCheck: true}, p)
+	return dialer.NewDialerContext(ctx, c15cStub{w}, opt, dialer.InstanceOption{DisableCheck: true}, p)
+}
+
+// routing rules built by the real builder: names under g2.test -> user outbound 2, under
+// direct.test -> reserved outbound direct, everything else (IP literals included) -> user outbound 3.
+// (What the matcher decides is C01's subject; here it only has to send flows somewhere.)
+func c15cBuildMatcher(log *logrus.Logger) *RoutingMatcher {
+	dom := func(val, out string) *config_parser.RoutingRule {
+		return &config_parser.RoutingRule{
+			AndFunctions: []*config_parser.Function{{Name: consts.Function_Domain, Params: []*config_parser.Param{{Key: "suffix", Val: val}}}},
+			Outbound:     config_parser.Function{Name: out},
+		}
+	}
+	b, err := NewRoutingMatcherBuilder(log, []*config_parser.RoutingRule{dom("g2.test", "g2"), dom("direct.test", "direct")},
+		map[string]uint8{"direct": 0, "block": 1, "g2": 2, "g3": 3}, nil, config.FunctionOrString("g3"))
+	if err != nil {
+		panic(err)
+	}
+	m, err := b.BuildUserspace()
+	if err != nil {
+		panic(err)
+	}
+	return m
 }
 
 func c15cNewWorld(st *VStream, stats *VStats, n int) *c15cWorld {
@@ -65,7 +115,7 @@ func c15cNewWorld(st *VStream, stats *VStats, n int) *c15cWorld {
 	w := &c15cWorld{n: n, st: st, stats: stats, lastSel: -1}
 	w.opt = &dialer.GlobalOption{Log: lg, CheckInterval: 30 * time.Second}
 	for i := 0; i < n; i++ {
-		w.dialers = append(w.dialers, c15cNewDialer(w.opt, "n"+strconv.Itoa(i)))
+		w.dialers = append(w.dialers, c15cNewDialer(w, w.opt, "n"+strconv.Itoa(i)))
 	}
 	for i, k := range dialer.StandardHealthKeys() {
 		w.types[i] = k.NetworkType()
@@ -128,8 +178,16 @@ func (w *c15cWorld) makeGroup(tol int64, pol consts.DialerSelectionPolicy, fixed
 	})
 	w.st.Emit(op, out)
 	// outbounds[0], [1] are the reserved direct/block slots; the group under test is user outbound 2.
+	// The production constructor loads eBPF objects; the pieces chooseProxyDialer / routeDial read are
+	// put together here from their real constructors (routing matcher from the real builder). All four
+	// outbound slots (direct, block, g2, g3) hold the group under test: which group a flow is routed
+	// to is not C15's subject, whether the routed outbound is reserved (=> dial by IP, strict) is.
+	if w.matcher == nil {
+		w.matcher = c15cBuildMatcher(w.opt.Log)
+	}
 	w.cp = &ControlPlane{log: w.opt.Log}
-	w.cp.outbounds = []*ob.DialerGroup{w.g, w.g, w.g}
+	w.cp.outbounds = []*ob.DialerGroup{w.g, w.g, w.g, w.g}
+	w.cp.routingMatcher = w.matcher
 	w.cp.dialMode = consts.DialMode_DomainPlus
 }
 
@@ -292,6 +350,122 @@ func (w *c15cWorld) choose(udp, src6, dst6, withDomain bool, excl int) {
 	w.stats.Inc("op.choose")
 }
 
+// dial = the REAL ControlPlane.routeDial: chooseProxyDialer (dial mode, re-route through the real
+// matcher, strictness re-derived for the routed outbound, selection type from the flow's families),
+// the scripted dial, ReportUnavailableForced on "network unreachable" and the second attempt.
+func (w *c15cWorld) dial(r *VRand) {
+	modes := []struct {
+		m consts.DialMode
+		c string
+	}{{consts.DialMode_Ip, "i"}, {consts.DialMode_DomainPlus, "p"}, {consts.DialMode_DomainCao, "c"}}
+	mo := modes[r.Intn(3)]
+	w.cp.dialMode = mo.m
+	p := &proxyDialParam{Network: "tcp", Src: c15cV4a, Dest: c15cV4b}
+	udp := r.Chance(0.5)
+	if udp {
+		p.Network = "udp"
+	}
+	fam6 := r.Chance(0.5)
+	src6, dst6 := fam6, fam6
+	if r.Chance(0.25) {
+		dst6 = !dst6
+	}
+	if src6 {
+		p.Src = c15cV6a
+	}
+	if dst6 {
+		p.Dest = c15cV6b
+	}
+	// outbound the kernel handed over
+	outC := "u"
+	switch r.Intn(4) {
+	case 0:
+		p.Outbound, outC = consts.OutboundDirect, "r"
+	case 1:
+		p.Outbound, outC = consts.OutboundControlPlaneRouting, "x"
+	default:
+		p.Outbound = consts.OutboundUserDefinedMin + consts.OutboundIndex(r.Intn(2))
+	}
+	// sniffed domain and where the matcher sends it
+	domC, routedReserved := "n", false
+	switch r.Intn(5) {
+	case 0:
+		// no domain: a routed flow falls to the fallback outbound g3
+	case 1:
+		p.Domain, domC = "93.184.216.34", "l"
+	case 2:
+		p.Domain, domC, routedReserved = "www.direct.test", "d", true
+	default:
+		p.Domain, domC = "a.g2.test", "d"
+	}
+	excl, exs := -1, "-"
+	if w.n > 0 && r.Chance(0.3) {
+		excl = r.Intn(w.n)
+		p.Excluded = w.dialers[excl]
+		exs = strconv.Itoa(excl)
+	}
+	b0 := []byte{'o', 'o', 'e', 'u', 'u'}[r.Intn(5)]
+	if w.policy == consts.DialerSelectionPolicy_Random && b0 == 'u' {
+		b0 = 'o' // which node dies would depend on the draw
+	}
+	w.dialScript = []byte{b0, 'o'}
+	w.dialed = 0
+	fam := func(b bool) string {
+		if b {
+			return "6"
+		}
+		return "4"
+	}
+	l4 := "t"
+	if udp {
+		l4 = "u"
+	}
+	op := fmt.Sprintf("dial %s %s %s %s %s %s %s %s %c", mo.c, outC, domC, map[bool]string{true: "1", false: "0"}[routedReserved], l4, fam(src6), fam(dst6), exs, b0)
+	out := VRecover(func() string {
+		// what the attempts chose is observed through chooseProxyDialer's results: routeDial returns the last one
+		conn, res, err := w.cp.routeDial(context.Background(), p)
+		if conn != nil {
+			_ = conn.Close()
+		}
+		desc := func(res *proxyDialResult, err error) string {
+			if res == nil {
+				return "err=other"
+			}
+			if res.Dialer == nil {
+				if err != nil && errors.Is(err, ob.ErrNoAliveDialer) {
+					return "err=noalive"
+				}
+				return "err=other"
+			}
+			di := -7
+			for j, x := range w.dialers {
+				if x == res.Dialer {
+					di = j
+				}
+			}
+			f := "?"
+			if res.SelectionNetworkTypeObj != nil {
+				f = string(res.SelectionNetworkTypeObj.IpVersion)
+			}
+			return fmt.Sprintf("ok %d:%d:%s", di, res.AdmissionNetworkTypeObj.Index()-2, f)
+		}
+		strict := "?"
+		if res != nil {
+			strict = map[bool]string{true: "1", false: "0"}[res.IsDialIp]
+		}
+		// the first attempt's choice is recoverable from the callbacks/dump only; print the final
+		// attempt and the number of dials, the model prints the same projection
+		return fmt.Sprintf("strict=%s dials=%d last=%s %s %s", strict, w.dialed, desc(res, err), w.takeCbs(), w.groupDump())
+	})
+	w.st.Emit(op, out)
+	w.stats.Inc("op.dial")
+	w.stats.Inc("dial.mode_" + mo.c + ".out_" + outC + ".dom_" + domC)
+	if w.dialed == 2 {
+		w.stats.Inc("dial.retry_after_unreachable")
+	}
+	w.cp.dialMode = consts.DialMode_DomainPlus
+}
+
 func TestVerifC15Dial(t *testing.T) {
 	r := NewVRand(VSeed() + 77)
 	stats := NewVStats()
@@ -339,6 +513,8 @@ func TestVerifC15Dial(t *testing.T) {
 				}
 			case x < 55:
 				w.setPolicy(pols[r.Intn(len(pols))], r.Intn(n))
+			case x < 75:
+				w.dial(r)
 			default:
 				excl := -1
 				switch y := r.Intn(10); {
